@@ -116,6 +116,20 @@ func cmdSQLCases(args []string) {
 			}
 			df = string(b)
 		}
+		if vals, ok := c["vals"].([]any); ok { // the exact value of every numeric value of the query (projection)
+			for _, v := range vals {
+				if m, ok := v.(map[string]any); ok {
+					if ty, _ := m["ty"].(string); ty == "int" || ty == "float" {
+						txt, _ := m["text"].(string)
+						m["key"] = ratKey(txt)
+					} else {
+						m["key"] = ""
+					}
+				}
+			}
+		}
+		// the same text is first rendered under another default field: nothing of that call may show in the next one
+		renderBoth(q, "zz_other")
 		inline, param := renderBoth(q, df)
 		c["inline"], c["param"] = inline, param
 		pr := r.record(n, q, df)
